@@ -257,14 +257,16 @@ unsigned int irc_pton(irc_inaddr *addr, unsigned int *bits, const char *input, i
         }
     } else if (dot) {
         unsigned int ip4;
-        pos += irc_pton_ip4(input + pos, bits, &ip4, allow_trailing);
-        if (pos) {
-            addr->in6[5] = htons(65535);
-            addr->in6[6] = htons(ntohl(ip4) >> 16);
-            addr->in6[7] = htons(ntohl(ip4) & 65535);
-            if (bits)
-                *bits += 96;
-        }
+        unsigned int len;
+        len = irc_pton_ip4(input + pos, bits, &ip4, allow_trailing);
+        if (!len)
+            return 0;
+        pos += len;
+        addr->in6[5] = htons(65535);
+        addr->in6[6] = htons(ntohl(ip4) >> 16);
+        addr->in6[7] = htons(ntohl(ip4) & 65535);
+        if (bits)
+            *bits += 96;
     } else if (input[pos] == '*') {
         while (input[++pos] == '*') ;
         if (bits)
